@@ -57,7 +57,13 @@ const INF = 1000000
 // BaseTime is instant 0 of the model; label set uid has timestamp BaseTime+uid seconds.
 const BaseTime = 1343124840
 
-func Time(ts int) time.Time { return time.Unix(BaseTime+int64(ts), 0) }
+// ts 0 is the Unix epoch itself (Expo.tla EpochTs): a datum whose last write carried that instant.
+func Time(ts int) time.Time {
+	if ts == 0 {
+		return time.Unix(0, 0)
+	}
+	return time.Unix(BaseTime+int64(ts), 0)
+}
 
 // LabelVal renders a label value token.
 func LabelVal(tok string) string {
